@@ -622,7 +622,13 @@ func (g *progGen) block(env genv, d int, n int) string {
 			sb.WriteString("{switch " + g.expr(env, k, d-1) + "}" + g.nl())
 			for j := 0; j < 1+g.r.Intn(3); j++ {
 				sb.WriteString("{case " + g.expr(env, k, 0))
-				if g.r.Chance(30) {
+				if g.o.scope && g.r.Chance(35) {
+					// C02: up to four values per case (the case is taken iff the switch value equals one of them)
+					g.feat("switch-multi-value")
+					for m := 1 + g.r.Intn(3); m > 0; m-- {
+						sb.WriteString(", " + g.expr(env, k, 0))
+					}
+				} else if g.r.Chance(30) {
 					sb.WriteString(", " + g.expr(env, k, 0))
 				}
 				sb.WriteString("}" + g.nl() + g.block(env, d-1, 1))
@@ -705,7 +711,18 @@ func (g *progGen) block(env genv, d int, n int) string {
 			}
 		case c < 22:
 			g.feat("special")
-			sb.WriteString(g.r.Pick([]string{"{sp}", "{nil}", "{\\n}", "{\\r}", "{\\t}", "{lb}", "{rb}", "{literal}{$not a tag} {{x}}{/literal}", "{debugger}"}))
+			if g.o.scope && g.r.Chance(30) {
+				// C02: {literal} bodies that the line-joining rule, the comment rule or the tag scanner would change
+				// if they were applied: none is (the body reaches the output byte for byte)
+				g.feat("literal")
+				var lb strings.Builder
+				for k, n := 0, 1+g.r.Intn(4); k < n; k++ {
+					lb.WriteString(g.r.Pick([]string{"  \n  x", "a\n\nb", " // not a comment", "/* nor this */", "{$x}", "{sp}", "{{", "}}", "<b>\n</b>", "\t", " ", "{if}", "text"}))
+				}
+				sb.WriteString("{literal}" + lb.String() + "{/literal}")
+			} else {
+				sb.WriteString(g.r.Pick([]string{"{sp}", "{nil}", "{\\n}", "{\\r}", "{\\t}", "{lb}", "{rb}", "{literal}{$not a tag} {{x}}{/literal}", "{debugger}"}))
+			}
 		case c < 23 && !g.o.noMsg && d > 0:
 			sb.WriteString(g.msg(env, d))
 		case c < 24 && !g.o.noLog && d > 0:
